@@ -65,6 +65,9 @@ def candidates(nd):
         extra.append(st.dictionaries(kf, vf, min_size=3, max_size=7))
     elif nd["kind"] == "schemalist":
         extra.append(st.lists(ops.subtree(nd, full=True), min_size=2, max_size=5))
+        # constructive: every leaf of every item comes with several candidates, the first acceptable one is used
+        built = st.lists(item_candidates(nd), min_size=1, max_size=4).map(lambda items: {"$items": items})
+        extra.extend([built, built])
     elif nd["kind"] == "secure":
         extra.append(st.sampled_from([" padded ", "tr\u00e4iling  ", "x", "multi\nline", "s3cr3t-\u00fc"]))
         extra.append(st.sampled_from([x for x in trees.CONFUSABLE_STRINGS if x]))
@@ -75,7 +78,65 @@ def candidates(nd):
         extra.append(st.sampled_from(["\x85", "a\x85b", "\x85\x85", "\u2028", "a\u2029b", "\x0b", "\x0c", "\x1c", "\x1e", "\x7f", "\ufeffx", "a\nb\n\nc", "tab\there"]))
     elif nd["kind"] == "any":
         extra.append(trees.tree_strategy("xml", 6, top_map=False))
-    return st.lists(st.one_of(base, *extra), min_size=4, max_size=4) if extra else st.lists(base, min_size=4, max_size=4)
+    if not extra:
+        return st.lists(base, min_size=4, max_size=4)
+    # (weighted, not one_of: one_of would flatten the many branches of ``base`` and drown the extras)
+    one = ops.weighted((2, base), *[(3 if nd["kind"] == "schemalist" else 1, e) for e in extra])
+    return st.lists(one, min_size=4, max_size=4)
+
+
+def item_candidates(node):
+    """One item of a list of configurations as {leaf key: [candidate values]}, nested schemas and lists recursing."""
+    fields = {}
+    for c in node["children"]:
+        if c["kind"] in ("virtual", "method"):
+            continue
+        if c["kind"] in ("schema", "configtype"):
+            fields[c["key"]] = item_candidates(c)
+        elif c["kind"] == "schemalist":
+            fields[c["key"]] = st.lists(st.deferred(lambda c=c: item_candidates(c)), max_size=2)
+        else:
+            fields[c["key"]] = st.lists(specs.values(c), min_size=3, max_size=3)
+    return st.fixed_dictionaries(fields) if fields else st.just({})
+
+
+def build_item(node, raw, ctx):
+    """Basic tree of one item from item_candidates(): per leaf the first candidate that load semantics accept with a
+    non-empty result; None if a required leaf has no acceptable candidate."""
+    out = {}
+    for c in node["children"]:
+        key = c["key"]
+        if key not in raw:
+            continue
+        if c["kind"] in ("schema", "configtype"):
+            sub = build_item(c, raw[key], ctx)
+            if sub is None:
+                return None
+            out[key] = sub
+        elif c["kind"] == "schemalist":
+            out[key] = [x for x in (build_item(c, r, ctx) for r in raw[key]) if x is not None]
+        else:
+            for cand in raw[key]:
+                value = _filter_valid(c, specs.realize(cand), ctx)
+                basic = ops.basic_form(c, value, ctx)
+                verdict = ops.expected_after_load(c, basic, ctx)
+                if verdict[0] == refmodel.A and verdict[1] not in (None, "", [], {}, ()) and _is_plain_value(basic):
+                    out[key] = basic
+                    break
+            else:
+                if c.get("req"):
+                    return None
+    return out
+
+
+def realize_candidate(nd, raw, ctx):
+    """Candidate value for a leaf as produced by candidates()."""
+    if nd["kind"] == "schemalist" and isinstance(raw, dict) and "$items" in raw:
+        return [x for x in (build_item(nd, r, ctx) for r in raw["$items"]) if x is not None]
+    value = specs.realize(raw)
+    if nd["kind"] == "schemalist" and isinstance(value, list):
+        value = specs.realize([ops.resolve_tree(nd, t, ctx, to_basic=False) if isinstance(t, dict) else t for t in value])
+    return _filter_valid(nd, value, ctx)
 
 
 def _augment(spec):
@@ -386,11 +447,9 @@ def run_case(case, R):
             if i in skip and not nd.get("req"):
                 continue
             for raw in case["populate"].get(".".join(path), []):
-                value = specs.realize(raw)
-                if nd["kind"] == "schemalist" and isinstance(value, list):
-                    value = [ops.resolve_tree(nd, t, world.ctx, to_basic=False) if isinstance(t, dict) else t for t in value]
-                    value = specs.realize(value)
-                value = _filter_valid(nd, value, world.ctx)
+                value = realize_candidate(nd, raw, world.ctx)
+                if _emptied(nd, value, raw, case["populate"].get(".".join(path), [])):
+                    continue
                 try:
                     ops.set_via(cfg, path, value, "setattr")
                     break
@@ -474,6 +533,12 @@ def run_case(case, R):
             compare(world, fresh, again, R, "second-generation")
 
 
+def _emptied(nd, value, raw, candidates):
+    """A container candidate that the filter emptied is passed over while later candidates remain: otherwise most
+    lists of configurations / typed containers would end up empty."""
+    return nd["kind"] in ("schemalist", "list", "dict") and isinstance(value, (list, dict)) and not value and raw is not candidates[-1]
+
+
 def _filter_valid(nd, value, ctx):
     """Drop the items/entries of a container candidate that the reference validator rejects."""
     A = refmodel.A
@@ -534,10 +599,9 @@ def populate(world, cfg, case):
         if i in skip and not nd.get("req"):
             continue
         for raw in case["populate"].get(".".join(path), []):
-            value = specs.realize(raw)
-            if nd["kind"] == "schemalist" and isinstance(value, list):
-                value = specs.realize([ops.resolve_tree(nd, t, world.ctx, to_basic=False) if isinstance(t, dict) else t for t in value])
-            value = _filter_valid(nd, value, world.ctx)
+            value = realize_candidate(nd, raw, world.ctx)
+            if _emptied(nd, value, raw, case["populate"].get(".".join(path), [])):
+                continue
             try:
                 ops.set_via(cfg, path, value, "setattr")
                 break
